@@ -64,8 +64,10 @@ def gen_cases(tier, seed):
     #  bytes keys fail its str prefix test - so it derives nothing; observed, not claimed, see DESIGN.md section 7)
     for i in range(6 if q else 60):
         yield "hd_root", {"salt": rng.getrandbits(40), "pp": ["", "TREZOR", "é"][i % 3]}
-    for i in range(16 if q else 250):
-        yield "cli_hd", {"seed": rand_bytes(rng, 32).hex(), "path": [rng.choice(IDX[:5]) for _ in range(rng.randrange(0, 3))], "xpub": i % 2 == 0, "dump": i % 4 < 2, "public_start": i % 5 == 0}
+    for i in range(24 if q else 360):
+        # every combination of (private/public starting key) x (--xpub or not) x (mainnet/testnet) occurs
+        yield "cli_hd", {"seed": rand_bytes(rng, 32).hex(), "path": [rng.choice(IDX[:5]) for _ in range(rng.randrange(0, 3))], "xpub": i % 2 == 0, "dump": i % 4 < 2,
+                         "public_start": i % 3 == 0, "testnet": (i // 6) % 2 == 1}
     for i in range(40 if q else 800):
         yield "ckd", {"k": hex(rng.randrange(1, secp.N)), "c": rand_bytes(rng, 32).hex(), "i": rng.choice([0, 1, 2, HARD - 1, rng.randrange(HARD)])}
     for i in range(10 if q else 100):
@@ -174,6 +176,16 @@ def run_case(kind, params, ctx):
             raise
         except Exception as e:
             ctx.violation("get_xpub/raises", f"{type(e).__name__}: {e}")
+        # ... and of a key that is public already (what `bits hd M/.. --xpub` hands it): the same key, same network
+        try:
+            xpub2 = bytes(hd.get_xpub(ref[-1][1]))
+            ctx.count("path.get_xpub_of_public")
+            if xpub2 != ref[-1][1]:
+                ctx.violation(f"get_xpub/of-public-key-wrong/{'testnet' if tn else 'mainnet'}/{_which_field(xpub2, ref[-1][1])}", f"get_xpub({ref[-1][1]!r}) = {xpub2!r}")
+        except ContractViolation:
+            raise
+        except Exception as e:
+            ctx.violation("get_xpub/of-public-key-raises", f"{type(e).__name__}: {e}")
         # composition at the split point
         j = params["split"]
         if path:
@@ -252,7 +264,7 @@ def run_case(kind, params, ctx):
         seed = bytes.fromhex(params["seed"])
         path = [p % HARD for p in params["path"]] if params["public_start"] else params["path"]
         try:
-            ref = rb32.derive(seed, path)
+            ref = rb32.derive(seed, path, bool(params.get("testnet")))
         except ValueError:
             return
         start = ref[0][1] if params["public_start"] else ref[0][0]
@@ -262,7 +274,7 @@ def run_case(kind, params, ctx):
         ctx.count("cli.hd")
         ctx.nontrivial()
         if not r["ok"] or r["out"] != want:
-            ctx.violation(f"cli/hd-wrong/{'xpub' if params['xpub'] else 'xprv'}", f"bits {' '.join(argv)} printed {r['out'][:40]!r}… (ret {r['ret']!r}), reference {want[:40]!r}…")
+            ctx.violation(f"cli/hd-wrong/{'xpub' if params['xpub'] else 'xprv'}{'/testnet' if params.get('testnet') else ''}{'/public-start' if params['public_start'] else ''}", f"bits {' '.join(argv)} printed {r['out'][:40]!r}… (ret {r['ret']!r}), reference {want[:40]!r}…")
             return
         if params["dump"]:
             try:
